@@ -1412,6 +1412,33 @@ def _namedtuples(tree):
                 fields = [x.value for x in spec.elts]
             if fields:
                 out[s_.targets[0].id] = fields
+
+    def class_fields(cd):
+        # class X(namedtuple('X', fields)): ...   (methods added to the record type)
+        if len(cd.bases) == 1 and isinstance(cd.bases[0], ast.Call) and len(cd.bases[0].args) >= 2:
+            f = cd.bases[0].func
+            nm = f.id if isinstance(f, ast.Name) else f.attr if isinstance(f, ast.Attribute) else ''
+            spec = cd.bases[0].args[1]
+            if nm == 'namedtuple':
+                if isinstance(spec, ast.Constant) and isinstance(spec.value, str):
+                    return spec.value.replace(',', ' ').split()
+                if isinstance(spec, (ast.List, ast.Tuple)) and all(isinstance(x, ast.Constant) and isinstance(x.value, str)
+                                                                  for x in spec.elts):
+                    return [x.value for x in spec.elts]
+        return None
+    for s_ in tree.body:
+        if isinstance(s_, ast.ClassDef):
+            fl = class_fields(s_)
+            if fl and not any(isinstance(b_, ast.FunctionDef) and b_.name in ('__new__', '__init__', '__getattr__')
+                              for b_ in s_.body):
+                out[s_.name] = fl
+        elif isinstance(s_, ast.ImportFrom) and s_.module and _MODS[0]:
+            sm = _MODS[0].get(s_.module.split('.')[-1])
+            if sm is not None and sm.tree is not tree:
+                other = _namedtuples(sm.tree)
+                for a_ in s_.names:
+                    if a_.name in other:
+                        out[a_.asname or a_.name] = other[a_.name]
     tree._namedtuples = out
     return out
 
